@@ -1,5 +1,6 @@
 mod btree;
 mod budget;
+mod cache;
 mod codec;
 mod commitorder;
 mod corrupt;
@@ -30,6 +31,7 @@ fn main() {
     match argv[1].as_str() {
         "wal-replay" => wal::replay(&args),
         "budget-replay" => budget::replay(&args),
+        "cache-replay" | "cache-stress" | "cache-probe" => cache::run(argv[1].as_str(), &args),
         "plock-replay" => plock::replay(&args),
         "freelist-replay" => freelist::replay(&args),
         "gc-replay" => gcommit::replay(&args),
